@@ -154,8 +154,21 @@ def gen_cases(ctx, n):
     cases = []
     for i in range(n):
         r = rng.random()
-        if r < 0.14:
+        if r < 0.08:
             c = base_case(i, rng)
+        elif r < 0.14:
+            # admission: more GetRunner callers than queue slots, each call in its own goroutine (conc_submit) so that
+            # the callers interleave inside GetRunner, while the pending loop is mostly kept parked (hold_sched): the
+            # queue stands at capacity - 1 / at capacity when two or more callers race for it
+            mq = rng.choice([1, 1, 2, 3])
+            c = base_case(i, rng, nmodels=rng.choice([1, 2]), nreq=mq + rng.randint(2, 4), klass="admission")
+            for q in c["reqs"]:
+                q["ka"], q["ngpu"], q["adapter"], q["ctx"] = rng.choice([None, 5, 1000]), -1, 0, 2048
+            for m in c["models"]:
+                m["bad"], m["vram"] = False, 10 ** 9
+            c["max"], c["maxq"], c["conc_submit"], c["hold_sched"] = rng.choice([0, 1, 3]), mq, True, rng.choice([0.8, 0.95])
+            c["pint"], c["pfail"], c["steps"] = rng.choice([0.4, 0.6]), 0.0, rng.choice([50, 80])
+            c["force_direct"] = True
         elif r < 0.20:
             # cycles: one model, sequential load / finish / expire / unload cycles, more of them than the internal
             # event queues have slots (OLLAMA_MAX_QUEUE); passive drain
@@ -407,13 +420,35 @@ def monitor(case, o):
                     v["C11"].append(({"class": "wrong-model"}, "step %d: request %d for model %d is served by a runner of model %d" % (i, q, case["reqs"][q]["m"], started[rid][0])))
     # queue full => busy, immediately; not full => no busy
     for i, s in enumerate(o["steps"]):
-        if s["c"]["a"] == "submit" and i > 0:
+        if s["c"]["a"] == "submit" and i > 0 and not case.get("conc_submit"):
             before = o["steps"][i - 1]["st"]["q"][0]
             busy = any(e[0] == "reply" and e[2] == "busy" for e in s["ev"])
             if before >= case["maxq"] and not busy:
                 v["C02"].append(({"class": "queue-full-no-busy"}, "step %d: submit with a full queue (%d) did not get the busy error at once" % (i, before)))
             if before < case["maxq"] and busy:
                 v["C02"].append(({"class": "busy-not-full"}, "step %d: busy error although the queue held %d of %d" % (i, before, case["maxq"])))
+    if case.get("conc_submit"):
+        # every GetRunner call returns - queued or with the busy error - without ever waiting for room in the queue
+        spawned, returned, full_seen = {}, set(), {}
+        for i, s_ in enumerate(o["steps"]):
+            for e in s_["ev"]:
+                if e[0] == "spawn-submit":
+                    spawned[e[1]] = i
+                elif e[0] == "submit-ret":
+                    returned.add(e[1])
+            for q in spawned:
+                if q not in returned and s_["st"]["q"][0] >= case["maxq"]:
+                    full_seen[q] = True
+            for e in s_["ev"]:
+                if e[0] == "reply" and e[2] == "busy" and e[1] in spawned and not full_seen.get(e[1]) and s_["st"]["q"][0] < case["maxq"]:
+                    v["C02"].append(({"class": "busy-not-full"}, "step %d: request %d gets the busy error although the queue (%d slots) was never full during its GetRunner call" % (i, e[1], case["maxq"])))
+            if s_.get("blk"):
+                v["C02"].append(({"class": "getrunner-blocks"}, "step %d: %s is blocked inside GetRunner on a full pending queue (%d of %d slots used): the caller gets neither a "
+                                 "queued request nor the busy error until the scheduler happens to dequeue" % (i, ", ".join(s_["blk"]), s_["st"]["q"][0], case["maxq"])))
+                break
+        lost = sorted(q for q in spawned if q not in returned)
+        if lost and not any(sig.get("class") == "getrunner-blocks" for sig, _ in v["C02"]):
+            v["C02"].append(({"class": "getrunner-blocks"}, "GetRunner calls of requests %s never returned" % lost))
     if o.get("deadlock"):
         cyc = o["deadlock"]["cycle"]
         sites = sorted(set(c["at"] for c in cyc))
@@ -576,10 +611,28 @@ def render_trace(case, o):
     """the model numbers requests in the order they are submitted; an explicit (shrunk) schedule may submit any subset"""
     steps = []
     qmap = {}
+    conc = bool(case.get("conc_submit"))
+    gq, gidx = {}, []           # conc_submit: submitter goroutine -> request, creation indices of the submitter goroutines
     for s in o["steps"][1:]:
         c = s["c"]
         a = c["a"]
-        if a == "submit":
+        inject = []
+        if conc and a == "submit":
+            # the call starts in a goroutine of its own; the model's atomic admission step is the goroutine's select
+            for e in s["ev"]:
+                if e[0] == "spawn-submit":
+                    gq[e[2]] = e[1]
+                    gidx.append(e[3])
+            continue
+        if conc and a == "run" and str(c.get("g", "")).startswith("api.submit#"):
+            if c.get("site") != "GetRunner.select1":
+                continue        # goroutine entry / the send of the busy error decided at the select
+            q = gq.get(c["g"], 0)
+            qmap[q] = len(qmap)
+            lab = "(OEnv (LSubmit %s))" % render_spec(case, q)
+            if c.get("alt") == -1:
+                inject = ["EReply %d RBusy" % qmap[q]]
+        elif a == "submit":
             qmap[c.get("q", 0)] = len(qmap)
             lab = "(OEnv (LSubmit %s))" % render_spec(case, c.get("q", 0))
         elif a == "cancel":
@@ -589,8 +642,9 @@ def render_trace(case, o):
         elif a == "tick":
             lab = "(OEnv (LTick %s))" % cZ(c["ms"])
         else:
-            lab = "(ORun %d)" % c.get("i", 0)
-        evs = [x for x in (render_event(e, qmap) for e in s["ev"]) if x]
+            i_ = c.get("i", 0)
+            lab = "(ORun %d)" % (i_ - sum(1 for x in gidx if x < i_))
+        evs = inject + [x for x in (render_event(e, qmap) for e in s["ev"]) if x]
         steps.append("mkO %s %s %s" % (lab, vlib.cq_list(evs, "event"), render_proj(s)))
     return vlib.cq_list(steps, "ostep")
 
@@ -703,7 +757,7 @@ def detect_variant(ctx, cases, obs):
 def run_group(ctx, pid, ncases=None, only_cases=None):
     ctx.rule = ("cases: corpus of minimal past failures first, then random schedules of submit / cancel / load-ok / load-fail / ping-fail / tick / "
                 "explicit unload and of the scheduler's own goroutines (one synchronisation operation at a time) over <= 3 models and <= 6 requests, "
-                "classes random / cycles / dup-expiry-reload / handover-cancel / expiry-race / reuse / queue / join-during-load / twogpu / fit (GPU, CPU, KV-cache variants); non-trivial = at least one runner was started and one request answered; "
+                "classes random / admission (concurrent GetRunner callers) / cycles / dup-expiry-reload / handover-cancel / expiry-race / reuse / queue / join-during-load / twogpu / fit (GPU, CPU, KV-cache variants); non-trivial = at least one runner was started and one request answered; "
                 "distinct = by the observed choice sequence")
     ctx.trusted = ["Coq 8.16.1 kernel + vm_compute", "hand-written LTS coq/Sched/Lts.v tied to server/sched.go by the conformance run only",
                    "the instrumenter harness/instr (adds yield points, resolves select nondeterminism, swaps sync.Mutex for a channel-backed mutex)",
